@@ -124,7 +124,8 @@ def run(ctx, rep):
         "elf_bytes::ElfBytes::section_data_as_relas": lambda n: n[0] == "agg" and n[3][2] == sd() and n[3][3] == C(0),
         "elf_bytes::ElfBytes::section_data_as_notes": lambda n: n[0] == "agg" and n[3][3] == sd() and n[3][4] == C(0),
         "elf_bytes::ElfBytes::section_data_as_dynamic": lambda n: n[0] == "agg" and n[3][2] == sd(),
-        "elf_bytes::ElfBytes::segment_data_as_notes": lambda n: n[0] == "agg" and n[3][3] == seg and n[3][4] == C(0),
+        # segment_data may appear by name or (when it is a plain forwarding function) as the range it designates
+        "elf_bytes::ElfBytes::segment_data_as_notes": lambda n: n[0] == "agg" and n[3][3] in (seg, SLICE(F_(me, "data"), F_(hdr, "p_offset"), ADD(F_(hdr, "p_offset"), F_(hdr, "p_filesz")))) and n[3][4] == C(0),
     }
     nv = 0
     for q, pred in views.items():
